@@ -214,9 +214,9 @@ class BSession:
             contents, wrote, size, cap, bufd = self.emit(f"(BOp {oi} {c_bpath(cur_path)} {nop})", self.c_exp(res), before,
                                                         {"op": jsonable(nav), "obj": oi, "path": jsonable(cur_path), "result": jsonable(res)})
             self.note_access(oi, fi, False)
-            self.track(res, wrote)
-            self.after_common(res, size, cap, bufd, res[0] in ("meta", "buf"))
             self.oracle_read(fi, cur_path, nav, res, wrote)
+            self.residency(res, wrote, contents, bufd)
+            self.after_common(res, size, cap, bufd, res[0] in ("meta", "buf"))
             if child is None:
                 return None
             h = child
@@ -232,14 +232,14 @@ class BSession:
         contents, wrote, size, cap, bufd = self.emit(f"(BOp {oi} {c_bpath(cur_path)} {nop})", self.c_exp(res), before,
                                                     {"op": jsonable(op), "obj": oi, "path": jsonable(cur_path), "result": jsonable(res)})
         read = op[0] in READS
-        self.note_access(oi, fi, not read and res[0] != "buf" and res[0] != "meta")
-        self.track(res, wrote)
-        self.after_common(res, size, cap, bufd, res[0] in ("meta", "buf"))
-        self.count(op[0] + ("" if res[0] == "ok" else "!" + str(res[1])))
+        self.note_access(oi, fi, not read)
         if read:
             self.oracle_read(fi, cur_path, op, res, wrote)
         else:
             self.oracle_mut(oi, fi, cur_path, op, res, wrote, contents)
+        self.residency(res, wrote, contents, bufd)
+        self.after_common(res, size, cap, bufd, res[0] in ("meta", "buf"))
+        self.count(op[0] + ("" if res[0] == "ok" else "!" + str(res[1])))
         return res
 
     def uniform(self, fi):
@@ -317,6 +317,15 @@ class BSession:
         if res[0] in ("meta", "buf"):
             if report:
                 self.fail("C05-error", f"buffer-related error {res} with no outside writer")
+            # the in-memory change was made before the flush inside the save raised
+            root = copy.deepcopy(self.logical_of(fi))
+            tgt = self.nav(root, path)
+            if tgt is not MISSING:
+                try:
+                    apply_lop(tgt, copy.deepcopy(op)) if isinstance(tgt, list) else apply_dop(tgt, copy.deepcopy(op))
+                    self.logical[fi] = root
+                except Exception:  # noqa
+                    pass
             return
         root = copy.deepcopy(self.logical_of(fi))
         tgt = self.nav(root, path)
@@ -382,32 +391,36 @@ class BSession:
         if res[0] == "ok":
             res = ("ok", None)
         contents, wrote, size, cap_now, bufd = self.emit(bop, self.c_exp(res), before, {"op": kind, "obj": oi, "cap": cap, "result": jsonable(res)})
-        self.track(res, wrote)
+        self.residency(res, wrote, contents, bufd)
         self.after_common(res, size, cap_now, bufd, res[0] in ("meta", "buf"))
         self.count(kind + ("" if res[0] == "ok" else "!" + res[0]))
         self.oracle_ctx(kind, oi, res, wrote, contents, pre_disk)
 
     def oracle_ctx(self, kind, oi, res, wrote, contents, pre_disk):
+        pass
+
+    def residency(self, res, wrote, contents, bufd):
+        """C07 / C05-final bookkeeping after EVERY step.  A file's residency in the buffer ends when it is no
+        longer in cls._buffer (context exit, or a capacity-forced flush of the serialized strategy); the
+        shared-memory strategy keeps entries across forced flushes, writing the modified ones."""
         from k1 import strict_eq
-        # which files have left every buffered state now?
         for fi in range(len(self.files)):
             if not self.entered.get(fi):
                 continue
-            holders = [i for i, b in enumerate(self.binding[:len(self.objs)]) if b == fi]
-            # the entry of a file is flushed by the first holder that stops being buffered
-            if kind == "xo":
-                leaves = self.binding[oi] == fi and self.obj_depth.get(oi, 0) == 0 and self.ctx_depth == 0
-            elif kind == "xc":
-                leaves = self.ctx_depth == 0 and any(self.obj_depth.get(i, 0) == 0 for i in holders)
-            else:
-                leaves = False
-            if leaves:
-                from k1 import strict_eq as _se
-                changed = not _se(self.at_entry.get(fi), self.logical_of(fi))
-                may = bool(self.modified.get(fi) and self.ext_after.get(fi))       # a mutator ran: the flush may refuse
-                must = bool(changed and self.ext_after.get(fi))                    # the content differs: it must refuse
+            named_now = (res[0] == "meta" and res[1] == fi) or (res[0] == "buf" and fi in res[1])
+            if named_now:
+                self.named_during[fi] = True
+            changed = not strict_eq(self.at_entry.get(fi), self.logical_of(fi))
+            if fi in wrote:
+                self.wrote_during[fi] = True
+                if self.ext_after.get(fi) and changed and not self.nonuniform:
+                    self.fail("C07-overwrite", f"file {fi} was changed outside after it entered the buffer, yet the library wrote it "
+                                               f"(now {jsonable(contents[fi])}, outside writer left {jsonable(self.last_ext.get(fi))})")
+            if fi not in bufd:
+                may = bool(self.modified.get(fi) and self.ext_after.get(fi))
+                must = bool(changed and self.ext_after.get(fi))
                 named = bool(self.named_during.get(fi))
-                if not self.small_cap_seen and not self.nonuniform:
+                if not self.nonuniform:
                     if must and not named:
                         self.fail("C07-silent", f"file {fi} was modified in the buffer and changed outside, but no flush named it")
                     if (must or named) and fi in self.last_ext and not strict_eq_m(contents[fi], self.last_ext[fi]):
@@ -420,13 +433,16 @@ class BSession:
                         d_ = contents[fi]
                         d_ = ([] if self.kind == "list" else {}) if d_ is MISSING else d_
                         if not strict_eq(d_, self.logical_of(fi)):
-                            self.fail("C05-final", f"after the outermost exit file {fi} holds {jsonable(contents[fi])}, logical content {jsonable(self.logical_of(fi))}")
-                # the file left the buffer: what is on disk is the truth from now on
+                            self.fail("C05-final", f"file {fi} left the buffer holding {jsonable(contents[fi])}, logical content {jsonable(self.logical_of(fi))}")
                 self.entered[fi] = False
                 d = contents[fi]
                 self.logical[fi] = None if d is MISSING else copy.deepcopy(d)
-        if kind == "xc" and self.ctx_depth == 0 and res[0] == "ok":
-            pass
+            elif fi in wrote and not named_now:
+                # shared-memory forced flush: the buffered copy is on disk now, the entry starts afresh
+                self.at_entry[fi] = copy.deepcopy(self.logical_of(fi))
+                self.modified[fi] = False
+                self.ext_after[fi] = False
+                self.wrote_during[fi] = False
 
     def errors_seen_before_exit(self):
         return False
